@@ -185,7 +185,8 @@ class Ctx:
         self.coverage: dict = {"evaluations": 0, "samples": [], "histogram": {}}
         self.nontrivial: set = set()
         self.assumptions: list[str] = []
-        self.known = [k for k in load_known_findings() if k.get("property") == prop_id and k.get("status") == "open"]
+        self.known = [k for k in load_known_findings()
+                      if (k.get("property") == prop_id or prop_id in (k.get("properties") or [])) and k.get("status") == "open"]
         self.thorough = tier == "thorough"
 
     # -- bookkeeping
